@@ -13,7 +13,9 @@ ORACLE (independent of the Lean model; from the metric-level script and the prop
      (an identity change by itself changes nothing; no file ever disappears);
  (b) C09:conservation — collected counters, summary _count/_sum and histogram buckets/_count/_sum equal the totals of
      all updates ever issued, whatever identity issued them (amounts are multiples of 1/8 below 2^41 or ±inf/NaN, so
-     the totals are exact in any order); metrics on which Counter.reset() was used are excluded;
+     the totals are exact in any order); Counter.reset() zeroes the ACTING identity's own cell of that series only
+     (the expected total is the sum over identities of each identity's own cell; later incs count from 0), and right
+     after a reset the entry in `counter_<current identity>.db` must read (0.0, 0.0) (C09:reset-not-zero);
  (c) C09:per-pid-gauge — for gauges of mode all/liveall every identity that made at least one value-level call while
      the child existed has exactly one series pid=<identity> showing what was last set/inc'ed under THAT identity
      (0.0 if never), identities that did nothing since the child exists have none;
@@ -102,7 +104,7 @@ class Oracle:
         self.pool = pool
         self.children = []      # (mi, lvs) existing in the acting worker's memory, in creation order
         self.totals = {}        # (mi, lvs) -> [amounts]  (counter incs / observations) of ALL generations and identities
-        self.excluded = set()   # metric indices on which reset() was used
+        self.ccells = {}        # counters: (mi, lvs) -> {identity: that identity's own cell}  (reset zeroes one cell)
         self.agg = c08.Oracle(pool)     # gauges only: what each identity holds (per identity, across generations)
         self.deaths = 0
         self.spawns = 0
@@ -123,8 +125,12 @@ class Oracle:
                 self.agg.create_child(pid, mi, lvs)
 
     def update(self, pid, mi, lvs, op, x, t):
-        if self.pool[mi]['kind'] == 'gauge':
+        kind = self.pool[mi]['kind']
+        if kind == 'gauge':
             self.agg.update(pid, mi, lvs, op, x, t)
+        elif kind == 'counter':
+            cells = self.ccells.setdefault((mi, lvs), {})
+            cells[pid] = 0.0 if op == 'reset' else cells.get(pid, 0.0) + x
         else:
             self.totals[(mi, lvs)].append(x)
 
@@ -141,7 +147,7 @@ class Oracle:
         out = {}
         for (mi, lvs), amounts in self.totals.items():
             md = self.pool[mi]
-            if md['kind'] == 'gauge' or mi in self.excluded:
+            if md['kind'] == 'gauge':
                 continue
             n = md['name']
             L = tuple(sorted(zip(md['labels'], lvs)))
@@ -150,6 +156,8 @@ class Oracle:
             for a in amounts:
                 tot += a
             if md['kind'] == 'counter':
+                for v in self.ccells.get((mi, lvs), {}).values():
+                    tot += v
                 fam[(n + '_total', L)] = tot
             elif md['kind'] == 'summary':
                 fam[(n + '_count', L)] = float(len(amounts))
@@ -466,6 +474,7 @@ def _run_history(scen, want_sample=False):
             nlog = len(world.ops)
             pid = w.cell[0] if w is not None else last_pid
             raised = None
+            reset_key = None
             kind = 'op'
             if op == 'W':
                 kind = 'W'
@@ -525,7 +534,7 @@ def _run_history(scen, want_sample=False):
                 if old:
                     inst = w.handles[st[1]]
                     mi, lvs = inst.key
-                    uop = {'old-inc': 'inc', 'old-dec': 'dec', 'old-set': 'set', 'old-observe': 'obs'}[op]
+                    uop = {'old-inc': 'inc', 'old-dec': 'dec', 'old-set': 'set', 'old-observe': 'obs', 'old-reset': 'reset'}[op]
                 else:
                     mi = st[1]
                     lvs = c08.lvs_of(pool[mi], st[2]) if len(st) > 2 else ()
@@ -574,10 +583,17 @@ def _run_history(scen, want_sample=False):
                                 w.removed.discard((mi, lvs))
                                 res.count('relabel-after-remove')
                         if uop == 'reset':
-                            sim.use(w.cls)
-                            c.reset()
-                            w.wrote(inst, False)
-                            oracle.excluded.add(mi)
+                            if md['kind'] == 'counter':
+                                sim.use(w.cls)
+                                c.reset()
+                                if inst is not None:
+                                    w.wrote(inst, False)
+                                if len(world.ops) > nlog:
+                                    oracle.touched(pid)
+                                oracle.update(pid, mi, lvs, 'reset', 0.0, 0.0)
+                                reset_key = json.dumps([md['name'], md['name'] + '_total', dict(zip(md['labels'], lvs)), md['help']], sort_keys=True)
+                            else:
+                                res.count('reset:skipped-not-a-counter')
                         elif uop != 'child':
                             x = lib.from_bits(st[2] if old else st[3])
                             tb = st[3:4] if old else st[4:5]
@@ -629,6 +645,13 @@ def _run_history(scen, want_sample=False):
                 left.update(exiting)
             if kind == 'op' and pid in left and any(bn.endswith('_%s.db' % pid) and len(raw_before.get(bn, b'')) > limit for bn in grown):
                 res.count('growth:update-after-return-to-grown-file')
+            if reset_key is not None and raised is None:
+                fn = 'counter_%s.db' % w.cell[0]
+                held = [(v, t) for k, v, t in after.get(fn, []) if k == reset_key]
+                res.count('reset:' + ('under-first-identity' if len(w.ids) == 1 and ngen == 1 else 'after-identity-change-or-new-worker'))
+                if held != [(0.0, 0.0)]:
+                    res.failures.append(('C09:reset-not-zero', 'right after Counter.reset() on %s%r under identity %s the entry in %s reads %r' % (
+                        md['name'], list(lvs), w.cell[0], fn, held), i))
             oracle_unreadable(res, i, after)
             oracle_a(res, i, pid, before, after, kind)
             oracle_raw(res, i, kind, pid, raw_before, raw_after, exiting)
@@ -818,6 +841,9 @@ def world_bases():
                  mdef('counter', 'c', ['l'])],
                 [['obs', 0, [], B(1.0)], ['obs', 1, ['x'], B(2.5)], ['set', 2, ['a'], B(7.0), B(10.0)], ['inc', 3, ['x'], B(1.0)],
                  ['obs', 0, [], B(3.0)], ['read', 2], ['inc', 3, ['x'], B(0.5)]]))
+    out.append(([mdef('counter', 'c'), mdef('counter', 'cl', ['l'])],
+                [['inc', 0, [], B(3.0)], ['reset', 0, []], ['inc', 0, [], B(2.0)], ['inc', 1, ['x'], B(1.0)], ['reset', 1, ['x']],
+                 ['inc', 1, ['x'], B(4.0)]]))
     return out
 
 
@@ -885,7 +911,7 @@ def gen_world(rng, all_modes, long=False):
             elif md['labels'] and r < 0.36:
                 steps.append(['remove', mi, lvs] if rng.random() < 0.7 else ['clear', mi])
             elif md['kind'] == 'counter':
-                steps.append(['inc', mi, lvs, B(c08.gen_value(rng, md, 'inc'))])
+                steps.append(['reset', mi, lvs] if rng.random() < 0.05 else ['inc', mi, lvs, B(c08.gen_value(rng, md, 'inc'))])
             elif md['kind'] in ('summary', 'histogram'):
                 steps.append(['obs', mi, lvs, B(c08.gen_value(rng, md, 'obs'))])
             else:
@@ -1036,6 +1062,13 @@ def stale_shapes(A, O, Y):
 
 
 def stale_histories():
+    cl = [mdef('counter', 'cl', ['l'])]
+    K, R, L = ['keep', 0, ['x'], 'h'], ['remove', 0, ['x']], ['child', 0, ['x']]
+    I = lambda x: ['inc', 0, ['x'], B(x)]
+    # Counter.reset() through the kept old object and through the young one, around identity changes
+    yield cl, [I(1.0), K, R, L, ['pid', 11], ['old-reset', 'h'], ['old-inc', 'h', B(2.0)], ['pid', 10], I(4.0)]
+    yield cl, [I(1.0), K, R, L, ['old-reset', 'h'], ['pid', 11], I(2.0), ['reset', 0, ['x']], I(4.0), ['pid', 10], ['old-inc', 'h', B(8.0)]]
+    yield cl, [I(1.0), K, R, L, ['reset', 0, ['x']], ['pid', 11], ['old-inc', 'h', B(2.0)], ['old-reset', 'h'], ['W', 10], I(4.0), ['reset', 0, ['x']]]
     for pool, A, O, Y in stale_pools():
         shapes = stale_shapes(A, O, Y)
         for k, steps in enumerate(shapes):
@@ -1069,7 +1102,7 @@ def sprinkle_stale(rng, pool, steps):
             name, mi = rng.choice(handles)
             md = pool[mi]
             if md['kind'] == 'counter':
-                out.append(['old-inc', name, B(c08.gen_value(rng, md, 'inc'))])
+                out.append(['old-reset', name] if rng.random() < 0.15 else ['old-inc', name, B(c08.gen_value(rng, md, 'inc'))])
             elif md['kind'] in ('summary', 'histogram'):
                 out.append(['old-observe', name, B(c08.gen_value(rng, md, 'obs'))])
             else:
@@ -1450,6 +1483,8 @@ def run(ctx):
     flush(ctx, rep, batch)
     for bi, (pool, steps) in enumerate(world_bases()):
         for k, ins in enumerate(world_insertions(steps)):
+            if bi == 4 and k % 2:
+                continue        # (time) the reset script gets every other placement
             scen = rename_ids({'pool': pool, 'pid0': 10, 'steps': ins, 'variant': 0}, [{}, {10: 0}, {11: 0}, {10: ''}][bi % 4])
             batch.append((scen, run_history(scen, k == 14 and len(ctx.samples) < 5)))
             ctx.count('histories:generations-systematic')
@@ -1490,7 +1525,7 @@ def run(ctx):
         batch.append((scen, run_fork_history(scen)))
     flush(ctx, rep, batch)
     for k in range(n_world):
-        if time.time() - t0 > budget * 0.75:
+        if time.time() - t0 > budget * 0.8:
             ctx.count('histories:skipped-for-time', n_world - k)
             break
         scen = gen_world(ctx.rng, all_modes, long=(k % 6 == 5))
